@@ -55,6 +55,21 @@ def global_name(ex, name, mod):
     return None
 
 
+def imported_name(ex, mod, name):
+    """value bound by `import mod` / `from mod import name` inside a function body"""
+    top = mod.split('.')[0]
+    if name is None:
+        return ModRef(MODULES.get(mod, mod)) if (mod in MODULES or top in ('scipy', 'numpy')) else ModRef(mod)
+    full = '%s.%s' % (mod, name)
+    if full in ('scipy.special', 'scipy.integrate', 'scipy.stats'):
+        return ModRef(full)
+    if mod in ('scipy.special', 'scipy.integrate', 'math', 'numpy'):
+        return Builtin(('np.' + name) if mod == 'numpy' else full)
+    if top == 'bioscrape' or mod in ('types', 'simulator', 'inference', 'lineage'):
+        return None      # resolved through the program's class/function tables
+    return Builtin(full)
+
+
 def module_attr(ex, m, attr, line):
     if m.name == 'numpy':
         if attr == 'inf' or attr == 'Inf' or attr == 'infty':
@@ -432,6 +447,8 @@ def call_builtin(ex, name, args, kwargs, line, node=None):
         return ex.power(tm.to_real(to_term(args[0])), tm.to_real(to_term(args[1])), line)
     if name in ('math.gamma', 'scipy.special.gamma', 'sc.gamma'):
         return tm.app('Gamma', (tm.to_real(to_term(a0)),), REAL)
+    if name == 'scipy.special.beta':
+        return tm.app('Beta', (tm.to_real(to_term(args[0])), tm.to_real(to_term(args[1]))), REAL)
     if name in ('math.floor', 'np.floor', 'floor'):
         t = to_term(a0)
         r = tm.to_int_floor(t)
